@@ -11,6 +11,7 @@ import RsslVerif.Lemmas.LiteralText
 Every statement below is about `Gen.FmtTables` / `Gen.ParseTables`, re-extracted from
 `formatter.rs`, `parser/expressions.rs`, `lexer.rs`, `tokens.rs` on every run.
 -/
+set_option linter.unusedSimpArgs false
 namespace RsslVerif.Thm.C09
 open RsslVerif.Gen.FmtTables RsslVerif.Gen.ParseTables RsslVerif.Model.Format RsslVerif.Model.Parse
 open RsslVerif.Lemmas.FmtParseTables RsslVerif.Lemmas.Roundtrip RsslVerif.Spec.Roundtrip
@@ -77,7 +78,10 @@ theorem glue_needs_space : lexSyms 8 (unSpellChars .Minus ++ unSpellChars .Minus
 /-- **paren_rule_matches_grammar.** For every child position of unary, binary and conditional nodes: if
 `format_subexpression` prints the child without parentheses, the child's production level is at most the level
 at which the parser reads that position (the levels of the conditional's operands are the ones extracted from
-`ternary_right`: the middle operand is read at the assignment level since f3b64c8). -/
+`ternary_right`: the middle operand is read at the assignment level since f3b64c8).  The children include negative
+literals, whose text (`-5l`) is read by the prefix production (`Expr.lvl` = 2): since e7611e2 they have the precedence of a
+prefix operation, so they are parenthesised under every postfix construct — with `precNegLiteral = precLiteral` (the
+code before the fix) the second conjunct is false. -/
 theorem paren_rule_matches_grammar :
     (∀ op (x : Expr), isPostfix op = false → needParen x.prec (unPrec op) prefixOperandSide = false → x.lvl ≤ prefixLevel) ∧
     (∀ op (x : Expr), isPostfix op = true → needParen x.prec (unPrec op) postfixOperandSide = false → x.lvl ≤ postfixLevel) ∧
@@ -109,7 +113,9 @@ expression, are read by the parser model at the top level (`expr_p15`, terminato
 
 Partial, because `WF` excludes literals that do not print as one token reading back as themselves (negative values,
 `-0.0`, NaN, … — `LitOk`, see `literal_roundtrip_partial` / `negative_literals_break`) — for those the full statement is
-false on the real code (known findings). Casts, `sizeof`, template
+false on the real code (known findings; what *is* true of negative literals since e7611e2 is
+`negative_literal_binds_like_minus`). An integer literal as the object of a member access is covered (`(1).m`, 07e6b1c:
+`member_of_int_literal_roundtrips`). Casts, `sizeof`, template
 arguments and braced initialisers are not in the model at all (so neither is `expr_p1_call`'s attempt to read
 `<…>(` as template arguments, which breaks `a < b > (c)` on the real code — a known finding). -/
 theorem roundtrip_expr_partial (e : Expr) (hwf : WF e) (rest : List Tok) (hrest : Stops rest) :
@@ -135,14 +141,18 @@ theorem roundtrip_subexpr_partial (e : Expr) (hwf : WF e) (outer : Nat) (side : 
   obtain ⟨N, h⟩ := rts_self (rt e hwf) outer side k term rest hterm hk hpos hno hin
   exact ⟨N, h N (Nat.le_refl _)⟩
 
-/-- **roundtrip_comma_positions_partial.** Initialiser expressions (d76894a), array sizes (a83e0d0) and call arguments are
+/-- **roundtrip_comma_positions_partial.** Initialiser expressions (d76894a), array sizes (a83e0d0), call arguments and —
+since 2a6da39 — attribute arguments, default values of parameters and enum values are
 printed at `(17, CommaList)` and read with the `Sequence` terminator (`parse_expression_no_seq`): in front of `,`, `;`,
 `]` or `)` the printed tokens read back as the tree — a comma expression there is printed in parentheses. -/
 theorem roundtrip_comma_positions_partial (e : Expr) (hwf : WF e) (t : Tok) (rest : List Tok)
     (ht : Closes .Sequence t) :
     (initPrec = 17 ∧ initSide = .CommaList ∧ arraySizePrec = 17 ∧ arraySizeSide = .CommaList ∧
      callArgPrec = 17 ∧ callArgSide = .CommaList ∧ initTerminator = .Sequence ∧ arraySizeTerminator = .Sequence ∧
-     callArgTerminator = .Sequence) ∧
+     callArgTerminator = .Sequence ∧
+     RsslVerif.Gen.SyntaxTables.attrArgPrec = 17 ∧ RsslVerif.Gen.SyntaxTables.attrArgSide = .CommaList ∧
+     RsslVerif.Gen.SyntaxTables.paramDefaultPrec = 17 ∧ RsslVerif.Gen.SyntaxTables.paramDefaultSide = .CommaList ∧
+     RsslVerif.Gen.SyntaxTables.enumValuePrec = 17 ∧ RsslVerif.Gen.SyntaxTables.enumValueSide = .CommaList) ∧
     ∃ fuel, parseLvl fuel 15 .Sequence (toks (fmtSub e 17 .CommaList) ++ t :: rest) = some (e, t :: rest) := by
   refine ⟨by decide, ?_⟩
   apply roundtrip_subexpr_partial e hwf 17 .CommaList 15 .Sequence (t :: rest) (by decide) (Nat.le_refl _)
@@ -190,6 +200,73 @@ theorem negative_literals_break :
   · decide
   · decide
   · decide
+
+/-- **negative_literal_binds_like_minus** (fix e7611e2).  At every position `(outer, side)` a negative literal prints exactly
+the tokens of the unary minus applied to the literal of its magnitude: it is parenthesised wherever that prefix operation
+is — so the reading differs from the tree in the node kind only (`Literal(-v)` ↦ `Minus(Literal(v))`, the remaining known
+finding), never in the grouping (`-5l.m` used to read as `Minus(Member(5l, m))`; `negative_literal_member_groups`). -/
+theorem negative_literal_binds_like_minus :
+    (∀ v, v ≠ 0 → ∀ outer side, toks (fmtSub (.lit ⟨.IntSigned64, true, v⟩) outer side) =
+      toks (fmtSub (.un .Minus (.lit ⟨.IntSigned64, false, v⟩)) outer side)) ∧
+    (∀ bits q, eighths? 8 23 bits = some q → ∀ outer side,
+      toks (fmtSub (.lit ⟨.Float32, true, bits⟩) outer side) =
+        toks (fmtSub (.un .Minus (.lit ⟨.Float32, false, bits⟩)) outer side) ∧
+      toks (fmtSub (.lit ⟨.Float16, true, bits⟩) outer side) =
+        toks (fmtSub (.un .Minus (.lit ⟨.Float16, false, bits⟩)) outer side)) ∧
+    (∀ bits q, eighths? 11 52 bits = some q → ∀ outer side,
+      toks (fmtSub (.lit ⟨.FloatUntyped, true, bits⟩) outer side) =
+        toks (fmtSub (.un .Minus (.lit ⟨.FloatUntyped, false, bits⟩)) outer side) ∧
+      toks (fmtSub (.lit ⟨.Float64, true, bits⟩) outer side) =
+        toks (fmtSub (.un .Minus (.lit ⟨.Float64, false, bits⟩)) outer side)) := by
+  have key : ∀ (l : Lit) (tok : Piece), litNegative l = true → litNegative { l with neg := false } = false →
+      litPieces l = some [minusPiece, tok] → litPieces { l with neg := false } = some [tok] →
+      ∀ outer side, toks (fmtSub (.lit l) outer side) = toks (fmtSub (.un .Minus (.lit { l with neg := false })) outer side) := by
+    intro l tok hn hp h1 h2 outer side
+    have e1 : litPrec l = 3 := by simp [litPrec, hn, precNegLiteral]
+    have e2 : litPrec { l with neg := false } = 0 := by simp [litPrec, hp, precLiteral]
+    have e3 : needParen 0 3 prefixOperandSide = false := by decide
+    simp only [fmtSub, e1, e2, show unPrec .Minus = 3 from rfl, show isPostfix .Minus = false from rfl, if_false,
+      Bool.false_eq_true, litPiecesT, h1, h2, Option.getD_some, e3, wrap_false]
+    cases needParen 3 outer side <;> simp [wrap, minusPiece, unPiece, unTok, lp, rp, pp] <;> split <;> (cases tok <;> simp [toks])
+  refine ⟨fun v hv outer side => ?_, fun bits q h outer side => ⟨?_, ?_⟩, fun bits q h outer side => ⟨?_, ?_⟩⟩
+  · exact key ⟨.IntSigned64, true, v⟩ (.t (.lit ⟨.IntSigned64, false, v⟩) (toString v ++ "l"))
+      (by simp [litNegative, negLiteralKinds]) (by simp [litNegative])
+      (by simp [litPieces, hv]) (by simp [litPieces]) outer side
+  · exact key ⟨.Float32, true, bits⟩ (.t (.lit ⟨.Float32, false, bits⟩) (floatText q "f")) (by simp [litNegative, negLiteralKinds]) (by simp [litNegative])
+      (by simp [litPieces, floatPieces, h]) (by simp [litPieces, floatPieces, h]) outer side
+  · exact key ⟨.Float16, true, bits⟩ (.t (.lit ⟨.Float16, false, bits⟩) (floatText q "h")) (by simp [litNegative, negLiteralKinds]) (by simp [litNegative])
+      (by simp [litPieces, floatPieces, h]) (by simp [litPieces, floatPieces, h]) outer side
+  · exact key ⟨.FloatUntyped, true, bits⟩ (.t (.lit ⟨.FloatUntyped, false, bits⟩) (floatText q "")) (by simp [litNegative, negLiteralKinds]) (by simp [litNegative])
+      (by simp [litPieces, floatPieces, h]) (by simp [litPieces, floatPieces, h]) outer side
+  · exact key ⟨.Float64, true, bits⟩ (.t (.lit ⟨.Float64, false, bits⟩) (floatText q "L")) (by simp [litNegative, negLiteralKinds]) (by simp [litNegative])
+      (by simp [litPieces, floatPieces, h]) (by simp [litPieces, floatPieces, h]) outer side
+
+/-- `(-5l).m` (was `-5l.m`): the tokens, and what the parser model makes of them — the member access of the negated literal -/
+theorem negative_literal_member_groups :
+    toks (fmtExpr (.mem (.lit ⟨.IntSigned64, true, 5⟩) "m")) =
+      [.p .LeftParen, .p .Minus, .lit ⟨.IntSigned64, false, 5⟩, .p .RightParen, .p .Period, .id "m"] ∧
+    parseAll .Standard (toks (fmtExpr (.mem (.lit ⟨.IntSigned64, true, 5⟩) "m"))) =
+      some (.mem (.un .Minus (.lit ⟨.IntSigned64, false, 5⟩)) "m", []) ∧
+    parseAll .Standard (toks (fmtExpr (.un .PostfixIncrement (.lit ⟨.Float32, true, 0x3fc00000⟩)))) =
+      some (.un .PostfixIncrement (.un .Minus (.lit ⟨.Float32, false, 0x3fc00000⟩)), []) := by
+  refine ⟨by decide, by rfl, by rfl⟩
+
+/-- **member_of_int_literal_roundtrips** (fix 07e6b1c; was the known finding `1.m`: rejected by the lexer).  An integer
+literal that is the object of a member access is printed in parentheses — `(1).m`, so the digits are not followed by the
+period — and reads back as the tree, for every value, kind of integer literal and member name. -/
+theorem member_of_int_literal_roundtrips (kind : LitKind) (hk : kind = .IntUntyped ∨ kind = .IntUnsigned32 ∨
+      kind = .IntUnsigned64 ∨ kind = .IntSigned64) (v : Nat) (hv : LitOk ⟨kind, false, v⟩ = true) (n : String) :
+    toks (fmtExpr (.mem (.lit ⟨kind, false, v⟩) n)) =
+      [.p .LeftParen, .lit ⟨kind, false, v⟩, .p .RightParen, .p .Period, .id n] ∧
+    ReadsBack (.mem (.lit ⟨kind, false, v⟩) n) [] := by
+  refine ⟨?_, roundtrip_expr_partial (.mem (.lit ⟨kind, false, v⟩) n) (by simpa [WF] using hv) [] (Or.inl rfl)⟩
+  have hp : litPrec ⟨kind, false, v⟩ = 0 := by simp [litPrec, litNegative, precLiteral]
+  have hm : memObjParen (.lit ⟨kind, false, v⟩) = true := by
+    rcases hk with rfl | rfl | rfl | rfl <;> rfl
+  have e1 : needParen precMember topPrec topSide = false := by decide
+  have e2 : needParen 0 precMember memObjectSide = false := by decide
+  simp only [fmtExpr, fmtSub, hm, hp, e1, e2, wrap_false]
+  simp [wrap, lp, rp, pp, litOk_toks _ hv]
 
 /-- digits of `n`, least significant first -/
 def decDigits : Nat → Nat → List Nat
@@ -252,7 +329,7 @@ theorem source_fingerprints : fingerprints = [
   ("formatter.rs::format_type_layout", "0191290b4d467359"),
   ("formatter.rs::format_type_modifiers", "fb763be26ee47d64"),
   ("formatter.rs::format_scoped_identifier", "c7e98328ef2f1ab7"),
-  ("formatter.rs::format_expression_or_type", "8e488fbb9a0ed92a"),
+  ("formatter.rs::format_expression_or_type", "0b8647e423906d6b"),
   ("formatter.rs::format_template_type_args", "22882aaf047c9870"),
   ("formatter.rs::format_declarator", "72519b3dea763ee6"),
   ("formatter.rs::format_init_declarators", "a6aaf2ef67380f1e"),
@@ -263,10 +340,10 @@ theorem source_fingerprints : fingerprints = [
   ("formatter.rs::format_for_init", "77387f99a2903821"),
   ("formatter.rs::format_statement", "851bce204a360d81"),
   ("formatter.rs::format_attributes", "6b395693600e5105"),
-  ("formatter.rs::format_attribute", "2d8ee2901cf416bf"),
-  ("formatter.rs::format_function", "49d85d5226dd2a69"),
-  ("formatter.rs::format_function_param", "06edafe0b54eae6f"),
-  ("formatter.rs::format_struct", "874644b551ea4772"),
+  ("formatter.rs::format_attribute", "7aca6d2c7598a77f"),
+  ("formatter.rs::format_function", "43bae6a8d4666ee9"),
+  ("formatter.rs::format_function_param", "02ce7de2dbefe139"),
+  ("formatter.rs::format_struct", "7b7ccb0705c8f968"),
   ("formatter.rs::format_global_variable", "83c45667ed45906b"),
   ("formatter.rs::format_location_annotations", "73455d720677dbab"),
   ("formatter.rs::format_location_annotation", "34c33f08d32d97b6"),
@@ -338,11 +415,13 @@ names: the tokens of the printed text read back, at the top level of the parser 
 accepted as types in cast / `sizeof` position, as the tree.
 
 Partial: `WF W e` is a decidable, syntactic carve-out.  It excludes, besides the literals of `LitOk`:
-* an expression argument of `sizeof` / of a template argument list with `>`, `>=`, `>>` or `,` outside parentheses
-  (`gtFree`; the real code fails there: `sizeof_shift_breaks`, `template_arg_shift_breaks`,
-  `template_arg_comma_regroups`), with a `<` operator anywhere (`template_arg_less_regroups`), or whose first token starts
-  a type (a name — in a template argument any name, in `sizeof` a name of `W` — unless it is the whole argument, which is
-  the `both` form the parser answers for a lone name);
+* an expression argument of `sizeof` / of a template argument list whose first printed token starts a type (a name — in a
+  template argument any name, in `sizeof` a name of `W` — unless it is the whole argument, which is the `both` form the
+  parser answers for a lone name).  Which operators the argument contains no longer matters: since e8e0be6 the position is
+  printed with `format_subexpression(expr, 7, CommaList)`, so `>`, `>=`, `>>`, `,`, `<` and everything else that binds no
+  tighter than the shift operators is in parentheses (read under `Standard`), and what is printed bare exposes none of them
+  (`Lemmas.RoundtripFull.gtFree_of_prec`) — `eot_parenthesised_admissible`, `sizeof_shift_roundtrips`,
+  `template_arg_shift_roundtrips`, `template_arg_comma_roundtrips` (formerly negation witnesses);
 * a *type* in `sizeof` / template-argument position whose first token is not a keyword modifier (there the parser also
   tries to read the text as an expression and the longer reading wins; only a lone name — `both` — and types starting
   with a keyword modifier are proved); types in cast position are not restricted this way;
@@ -352,7 +431,9 @@ Partial: `WF W e` is a decidable, syntactic carve-out.  It excludes, besides the
 * declarators outside what `parse_declarator_internal` reads (`T (*)[n]`, `T*[n]`, qualifiers other than `const` /
   `volatile` after `*`, `&&`);
 and the hypothesis `hsafe` excludes a `<` operator followed anywhere later in the stream by `>` directly before `(`
-(`less_greater_paren_regroups`: the real code reads `a < a > (…)` as a call with template arguments).
+(`less_greater_paren_regroups`: the real code reads `a < a > (…)` as a call with template arguments — not repaired).  `hsafe`
+is sufficient, not necessary: it also rules out a `<` operator *inside* a template argument of a call (the list's own `>`
+`(` follows), which does read back since the argument is parenthesised (`template_arg_less_roundtrips`, by evaluation).
 Also not covered: `BracedInit` (no production reads it) and attributes.  The model takes the cast alternative of
 `expr_p2` whenever it succeeds (see `Model/ParseFull.lean`). -/
 theorem roundtrip_xexpr_partial (W : List String) (e : XExpr) (hwf : RsslVerif.Lemmas.RoundtripFull.WF W e) (rest : List Tok) (hrest : StopsX rest)
@@ -393,30 +474,71 @@ theorem roundtrip_typeid_partial (W : List String) (mods : List TypeMod) (n : St
   obtain ⟨N, h⟩ := rtTyp W (.mk mods n targs d) hwf habs sym fol rest hsym hrest hsafe
   exact ⟨N, h N (Nat.le_refl _)⟩
 
-/-! ## Negation witnesses: shapes outside `WF` for which the real code does not round-trip (known findings) -/
+/-! ## Expression-or-type positions after e8e0be6: the former negation witnesses read back -/
 
-/-- `sizeof(a >> a)`: the operand is read under `Terminator::TypeList`, where `>>` is no operator — rejected -/
-theorem sizeof_shift_breaks :
-    xparseAll [] .Standard (toks (fmtExprX (.sizeof (.e (.bin .RightShift (.id "a") (.id "a")))))) = none := by decide
+/-- **eot_parenthesised_admissible.** Every expression of `WF` that binds no tighter than the shift operators — any
+operator among `<< >> < <= > >= == != & ^ | && || ?: = op= ,` at its top — is admissible as the operand of `sizeof` and
+as a template argument: it is printed in parentheses, so its first token starts no type.  (Before e8e0be6 `WF` had to
+exclude `>`, `>=`, `>>`, `,` and `<` there.) -/
+theorem eot_parenthesised_admissible (W : List String) (sym : Bool) (x : XExpr)
+    (hw : RsslVerif.Lemmas.RoundtripFull.WF W x) (hp : needParen x.prec eotExprPrec eotExprSide = true) :
+    WFArg W sym (.e x) := by
+  refine ⟨hw, ?_⟩
+  rw [fmtSubX_eq, hp, RsslVerif.Lemmas.RoundtripFull.toks_wrap_true]
+  simp [tyHeadDeadB, modBeforeStep, modBeforeKw, modBeforeSkips]
 
-/-- `a<a >> a>()`: the template argument is printed unparenthesised and `>>` closes the list — rejected -/
-theorem template_arg_shift_breaks :
-    (xparseAll [] .Standard (toks (fmtExprX
-      (.call (.id "a") (.cons (.e (.bin .RightShift (.id "a") (.id "a"))) .nil) .nil)))).map (·.2) ≠ some [] := by decide
+theorem eot_parenthesises_from_shift : eotExprPrec = binPrec .RightShift ∧ eotExprPrec = binPrec .LeftShift ∧
+    ∀ op : BinOp, needParen (binPrec op) eotExprPrec eotExprSide = decide (binPrec .RightShift ≤ binPrec op) := by
+  refine ⟨by decide, by decide, fun op => ?_⟩
+  cases op <;> decide
 
-/-- `a<(a, a)>()` prints `a<a, a>()` and reads back with two template arguments -/
-theorem template_arg_comma_regroups :
-    xparseAll [] .Standard (toks (fmtExprX
-      (.call (.id "a") (.cons (.e (.bin .Sequence (.id "a") (.id "b"))) .nil) .nil))) =
-    some (.call (.id "a") (.cons (.both (.id "a") (.mk [] "a" .nil .empty))
-      (.cons (.both (.id "b") (.mk [] "b" .nil .empty)) .nil)) .nil, []) := by rfl
+/-- `sizeof((a >> a))` -/
+def sizeofShift : XExpr := .sizeof (.e (.bin .RightShift (.id "a") (.id "a")))
+/-- `a<(a >> a)>()` -/
+def templateArgShift : XExpr := .call (.id "a") (.cons (.e (.bin .RightShift (.id "a") (.id "a"))) .nil) .nil
+/-- `a<(a, b)>()` -/
+def templateArgComma : XExpr := .call (.id "a") (.cons (.e (.bin .Sequence (.id "a") (.id "b"))) .nil) .nil
+/-- `a<(a < b)>()` -/
+def templateArgLess : XExpr := .call (.id "a") (.cons (.e (.bin .LessThan (.id "a") (.id "b"))) .nil) .nil
 
-/-- `a<a < b>()` reads back as `a < a<b>()` -/
-theorem template_arg_less_regroups :
-    xparseAll [] .Standard (toks (fmtExprX
-      (.call (.id "a") (.cons (.e (.bin .LessThan (.id "a") (.id "b"))) .nil) .nil))) =
-    some (.bin .LessThan (.id "a") (.call (.id "a") (.cons (.both (.id "b") (.mk [] "b" .nil .empty)) .nil) .nil), []) := by
-  rfl
+/-- `sizeof((a >> a))` (was `sizeof(a >> a)`: rejected, the operand is read under `Terminator::TypeList`): the printed
+tokens and their reading by the parser model -/
+theorem sizeof_shift_roundtrips :
+    toks (fmtExprX sizeofShift) = [.p .SizeOf, .p .LeftParen, .p .LeftParen, .id "a", .gt true, .gt false, .id "a",
+      .p .RightParen, .p .RightParen] ∧
+    xparseAll [] .Standard (toks (fmtExprX sizeofShift)) = some (sizeofShift, []) := by
+  refine ⟨by decide, by rfl⟩
+
+/-- `a<(a >> a)>()` (was `a<a >> a>()`: the `>>` closed the list) -/
+theorem template_arg_shift_roundtrips :
+    xparseAll [] .Standard (toks (fmtExprX templateArgShift)) = some (templateArgShift, []) := by rfl
+
+/-- `a<(a, b)>()` (was `a<a, b>()`: two template arguments) -/
+theorem template_arg_comma_roundtrips :
+    xparseAll [] .Standard (toks (fmtExprX templateArgComma)) = some (templateArgComma, []) := by rfl
+
+/-- `a<(a < b)>()` (was `a<a < b>()`, read as `a < a<b>()`) — by evaluation only: `hsafe` of the general theorem does not
+hold for it (see there) -/
+theorem template_arg_less_roundtrips :
+    xparseAll [] .Standard (toks (fmtExprX templateArgLess)) = some (templateArgLess, []) := by rfl
+
+/-- the first three are instances of the general theorem (for any set of type names that does not make the parenthesised
+text look like a cast: here none) -/
+theorem former_witnesses_wf :
+    RsslVerif.Lemmas.RoundtripFull.WF [] sizeofShift ∧ RsslVerif.Lemmas.RoundtripFull.WF [] templateArgShift ∧
+    RsslVerif.Lemmas.RoundtripFull.WF [] templateArgComma := by
+  refine ⟨?_, ?_, ?_⟩ <;>
+    simp [sizeofShift, templateArgShift, templateArgComma, RsslVerif.Lemmas.RoundtripFull.WF,
+      RsslVerif.Lemmas.RoundtripFull.WFA, WFArg, WFTArgs] <;> decide
+
+example : ∃ fuel, xparseLvl [] fuel 15 .Standard (toks (fmtExprX sizeofShift) ++ []) = some (sizeofShift, []) :=
+  roundtrip_xexpr_partial [] _ former_witnesses_wf.1 [] (Or.inl rfl) (fun h => by revert h; decide)
+example : ∃ fuel, xparseLvl [] fuel 15 .Standard (toks (fmtExprX templateArgShift) ++ []) = some (templateArgShift, []) :=
+  roundtrip_xexpr_partial [] _ former_witnesses_wf.2.1 [] (Or.inl rfl) (fun h => by revert h; decide)
+example : ∃ fuel, xparseLvl [] fuel 15 .Standard (toks (fmtExprX templateArgComma) ++ []) = some (templateArgComma, []) :=
+  roundtrip_xexpr_partial [] _ former_witnesses_wf.2.2 [] (Or.inl rfl) (fun h => by revert h; decide)
+
+/-! ## Negation witness: the shape outside `hsafe` for which the real code still does not round-trip (known finding) -/
 
 /-- `(a < a) > (a & a)` prints `a < a > (a & a)` and reads back as the call `a<a>(a & a)` -/
 theorem less_greater_paren_regroups :
@@ -474,7 +596,8 @@ Partial — `WFS` (decidable, syntactic) requires, besides `WF` of every express
   does not read as an expression statement (`varExprDeadB`: it starts with a keyword modifier or with two names in a
   row — `T x`, not `T* x` / `T<a> x`, which the real parser answers with `AmbiguousDeclarationOrExpression` and the
   type checker resolves; a pointer definition in `for` init reads back as an expression: `for_init_pointer_reads_as_expr`);
-* attribute arguments and initialiser expressions without a top-level comma operator (`attribute_comma_regroups`);
+* (attribute arguments and initialiser expressions are no longer restricted: a comma expression there is printed in
+  parentheses — initialisers since d76894a, attribute arguments since 2a6da39, `attribute_comma_roundtrips`);
 * the declarators the parser has productions for (`WFDecl`), no location annotations, no `StaticSampler`.
 `hsafe` is the `<` condition of `roundtrip_xexpr_partial` for the whole remaining stream. -/
 theorem roundtrip_stmt_partial (W : List String) (s : Stmt) (hwf : WFS W s) (rest : List Tok) (hne : rest ≠ [])
@@ -508,10 +631,23 @@ theorem dangling_else_regroups :
     parseStmtAll [] (toks (fmtStmt (.mk [] (.ifElse (.id "c") (.mk [] (.ifS (.id "d") (sx "x"))) (sx "y")))) ++ [.p .RightBrace]) =
     .ok (.mk [] (.ifS (.id "c") (.mk [] (.ifElse (.id "d") (sx "x") (sx "y"))))) [.p .RightBrace] := by rfl
 
-/-- `[unroll((a, b))] ;` prints `[unroll(a, b)] ;` and reads back with two arguments (real code: known finding) -/
-theorem attribute_comma_regroups :
-    parseStmtAll [] (toks (fmtStmt (.mk [⟨"unroll", .cons (.bin .Sequence (.id "a") (.id "b")) .nil, false⟩] .empty)) ++ [.p .RightBrace]) =
-    .ok (.mk [⟨"unroll", .cons (.id "a") (.cons (.id "b") .nil), false⟩] .empty) [.p .RightBrace] := by rfl
+/-- `[unroll((a, b))] ;` -/
+def attrCommaStmt : Stmt := .mk [⟨"unroll", .cons (.bin .Sequence (.id "a") (.id "b")) .nil, false⟩] .empty
+
+/-- `[unroll((a, b))] ;` (was printed `[unroll(a, b)] ;` and read back with two arguments; 2a6da39): the printed tokens
+and their reading by the statement model -/
+theorem attribute_comma_roundtrips :
+    toks (fmtStmt attrCommaStmt) = [.p .LeftSquareBracket, .id "unroll", .p .LeftParen, .p .LeftParen, .id "a", .p .Comma,
+      .id "b", .p .RightParen, .p .RightParen, .p .RightSquareBracket, .p .Semicolon] ∧
+    parseStmtAll [] (toks (fmtStmt attrCommaStmt) ++ [.p .RightBrace]) = .ok attrCommaStmt [.p .RightBrace] := by
+  refine ⟨by decide, by rfl⟩
+
+/-- … and it is an instance of the general theorem -/
+example : ∃ fuel, parseStmt [] fuel (toks (fmtStmt attrCommaStmt) ++ [.p .RightBrace]) = .ok attrCommaStmt [.p .RightBrace] :=
+  roundtrip_stmt_partial [] attrCommaStmt
+    (by simp [attrCommaStmt, WFS, WFK, WFAttrs, WFAttr, RsslVerif.Lemmas.RoundtripFull.WF, RsslVerif.Lemmas.RoundtripFull.WFA]
+        decide)
+    _ (by simp) (fun _ r h => by cases h) (fun h => by revert h; decide)
 
 /-- `for (T* p;;) ;` reads back with the init as the expression `T * p` (the expression wins a tie in
 `parse_init_statement`) -/
@@ -542,7 +678,7 @@ def sampleStmt : Stmt :=
       (.cons (.mk [] (.ret (some (.call (.id "f") .nil (.cons (.id "i") .nil))))) .nil)))))))
 
 theorem sampleStmt_wf : WFS ["int", "vector", "S"] sampleStmt := by
-  simp [sampleStmt, WFS, WFK, WFSs, WFAttrs, WFAttr, WFForInit, WFVarDef, WFInitDecl, WFInit, WFInits, WFOpt, WFDecl, argsLvl,
+  simp [sampleStmt, WFS, WFK, WFSs, WFAttrs, WFAttr, WFForInit, WFVarDef, WFInitDecl, WFInit, WFInits, WFOpt, WFDecl,
     RsslVerif.Lemmas.RoundtripFull.WF, RsslVerif.Lemmas.RoundtripFull.WFA, WFArg, WFTArgs, WFTy, tyName,
     gtFree, hasLt, XExpr.lvl, Decl.abstr, Decl.needsScope, Decl.startsBracket, openIf, openIfK]
   decide +kernel
@@ -561,9 +697,9 @@ open RsslVerif.Lemmas.RoundtripFull RsslVerif.Lemmas.StmtRT RsslVerif.Lemmas.Def
 /-- **roundtrip_param_partial.** A function parameter — type with modifiers (`in` / `out` / `inout`, `const`, …) and
 template arguments, named declarator (pointer, reference, array dimensions), optional semantic, optional default value —
 printed by `format_function_param` in front of `,` or `)` is read back by the model of `parse_function_param` as the same
-parameter.  Partial — `WFParam`: the declarator is named and one the parser has productions for, the default value has
-no top-level comma operator (`default_arg_comma_rejected`: the formatter prints it bare and the text is rejected; known
-finding), expressions are `WF`. -/
+parameter.  Partial — `WFParam`: the declarator is named and one the parser has productions for, expressions are `WF`
+(a default value that is a comma expression is printed in parentheses since 2a6da39 and covered:
+`default_arg_comma_roundtrips`). -/
 theorem roundtrip_param_partial (W : List String) (p : Param) (hwf : WFParam W p) (c : Tok)
     (hc : c = .p .Comma ∨ c = .p .RightParen) (rest : List Tok)
     (hsafe : hasLtParam p = true → TmplFree (toks (fmtParam p) ++ c :: rest) = true) :
@@ -586,25 +722,56 @@ theorem roundtrip_function_partial (W : List String) (fn : FnDef) (hwf : WFFn W 
   obtain ⟨N, h⟩ := fn_reads W fn hwf rest hsafe
   exact ⟨N, h N (Nat.le_refl _)⟩
 
-/-- **roundtrip_struct_partial.** For every struct definition tree — name and any number of entries, each a member
+/-- **roundtrip_struct_partial.** For every struct definition tree — name, any number of base types (modifiers, name,
+template arguments; printed as ` : A, B<…>` since 2e907a1 — before that the formatter dropped them) and any number of
+entries, each a member
 variable definition with attributes (`roundtrip_decl_partial`) or a method (`roundtrip_function_partial`; the model of
 `parse_struct_entry` tries the member reading first, which is shown to fail on a method: after the name comes `(`) — the
 printed tokens followed by `rest` are read back by the model of `parse_struct_definition` as the same tree.
-Partial — `WFStruct`: `WFVarDef` / `WFFn` of the entries; not in the tree type: template parameters, base types (which the
-formatter does not print: known finding), member semantics / packoffsets. -/
+Partial — `WFStruct`: `WFBase` of the base types (name no modifier word, `WFTArgs`), `WFVarDef` / `WFFn` of the entries;
+not in the tree type: template parameters, member semantics / packoffsets. -/
 theorem roundtrip_struct_partial (W : List String) (s : StructDef) (hwf : WFStruct W s) (rest : List Tok)
-    (hsafe : hasLtMembers s.members = true → TmplFree (toks (fmtStruct s) ++ rest) = true) :
+    (hsafe : (hasLtBases s.bases || hasLtMembers s.members) = true → TmplFree (toks (fmtStruct s) ++ rest) = true) :
     ∃ fuel, parseStruct W fuel (toks (fmtStruct s) ++ rest) = .ok s rest := by
   rw [toks_fmtStruct] at hsafe ⊢
   obtain ⟨N, h⟩ := struct_reads W s hwf rest hsafe
   exact ⟨N, h N (Nat.le_refl _)⟩
 
-/-- `void f(int a = (x, y));` prints `void f(int a = x, y);`: the default value is printed with `format_expression` and
-read with `parse_expression_no_seq`; `y` is then read as the type of a second parameter without name: rejected (real
-code: known finding) -/
-theorem default_arg_comma_rejected :
-    parseFn [] 40 (toks (fmtFn ⟨[], [], "void", .nil, "f",
-      [⟨[], "int", .nil, .name "a", none, some (.bin .Sequence (.id "x") (.id "y"))⟩], none, none⟩) ++ [.p .Eof]) = .fail := by rfl
+/-- `struct P : S { };` with a base type reads back with it (was the known finding "base types are not printed") -/
+theorem struct_base_types_roundtrip :
+    toks (fmtStruct ⟨"P", [([], "S", .nil), ([], "T", .cons (.both (.id "U") (.mk [] "U" .nil .empty)) .nil)], []⟩) =
+      [.p .Struct, .id "P", .p .Colon, .id "S", .p .Comma, .id "T", .lt true, .id "U", .gt false, .p .LeftBrace,
+       .p .RightBrace, .p .Semicolon] ∧
+    parseStruct [] 40 (toks (fmtStruct ⟨"P", [([], "S", .nil), ([], "T", .cons (.both (.id "U") (.mk [] "U" .nil .empty)) .nil)], []⟩) ++ [.p .Eof]) =
+      .ok ⟨"P", [([], "S", .nil), ([], "T", .cons (.both (.id "U") (.mk [] "U" .nil .empty)) .nil)], []⟩ [.p .Eof] := by
+  refine ⟨by decide, by rfl⟩
+
+/-- **definition_header_tables_agree.** `format_function` prints the template parameter list and the attributes in the order
+in which `parse_function_definition` reads them (df99070: the formatter used to print the attributes first and the text
+`[numthreads(8,8,1)] template<typename T> void f()` was rejected), and `format_struct` prints the base types that
+`parse_struct_definition` reads (2e907a1).  Template parameter lists themselves are outside the tree types. -/
+theorem definition_header_tables_agree :
+    templateParamsBeforeAttributes = parserReadsTemplateParamsFirst ∧ structPrintsBaseTypes = true := by decide
+
+/-- `void f(int a = (x, y));` -/
+def defaultCommaFn : FnDef :=
+  ⟨[], [], "void", .nil, "f", [⟨[], "int", .nil, .name "a", none, some (.bin .Sequence (.id "x") (.id "y"))⟩], none, none⟩
+
+/-- `void f(int a = (x, y));` (was printed `void f(int a = x, y);` and rejected; 2a6da39): the default value keeps its
+parentheses and the function reads back -/
+theorem default_arg_comma_roundtrips :
+    toks (fmtFn defaultCommaFn) = [.id "void", .id "f", .p .LeftParen, .id "int", .id "a", .p .Equals, .p .LeftParen, .id "x",
+      .p .Comma, .id "y", .p .RightParen, .p .RightParen, .p .Semicolon] ∧
+    parseFn [] 40 (toks (fmtFn defaultCommaFn) ++ [.p .Eof]) = .ok defaultCommaFn [.p .Eof] := by
+  refine ⟨by decide, by rfl⟩
+
+/-- … and it is an instance of the general theorem -/
+example : ∃ fuel, parseFn [] fuel (toks (fmtFn defaultCommaFn) ++ [.p .Eof]) = .ok defaultCommaFn [.p .Eof] :=
+  roundtrip_function_partial [] defaultCommaFn
+    (by simp [defaultCommaFn, WFFn, WFParam, WFBody, WFAttrs, WFTArgs, WFDecl, Decl.abstr,
+          RsslVerif.Lemmas.RoundtripFull.WF]
+        decide)
+    _ (fun h => by revert h; decide)
 
 /-- non-vacuity: attribute, template return type, `in`/`out`/`inout` parameters with array declarator, semantics and a
 default value, a body with a definition and a `return` -/
@@ -619,7 +786,7 @@ def sampleFn : FnDef :=
      (.cons (.mk [] (.ret (some (.id "t")))) .nil))⟩
 
 theorem sampleFn_wf : WFFn ["vector", "float4", "S", "uint", "float", "float4x4"] sampleFn := by
-  simp [sampleFn, WFFn, WFParam, WFBody, WFS, WFK, WFSs, WFAttrs, WFAttr, WFVarDef, WFInitDecl, WFInit, WFOpt, WFDecl, argsLvl,
+  simp [sampleFn, WFFn, WFParam, WFBody, WFS, WFK, WFSs, WFAttrs, WFAttr, WFVarDef, WFInitDecl, WFInit, WFOpt, WFDecl,
     RsslVerif.Lemmas.RoundtripFull.WF, RsslVerif.Lemmas.RoundtripFull.WFA, WFArg, WFTArgs, WFTy, tyName,
     gtFree, hasLt, XExpr.lvl, Decl.abstr, Decl.needsScope, Decl.startsBracket, openIf, openIfK]
   decide +kernel
@@ -627,18 +794,23 @@ theorem sampleFn_wf : WFFn ["vector", "float4", "S", "uint", "float", "float4x4"
 example : ∃ fuel, parseFn ["vector", "float4", "S", "uint", "float", "float4x4"] fuel (toks (fmtFn sampleFn) ++ [.p .Eof]) = .ok sampleFn [.p .Eof] :=
   roundtrip_function_partial _ sampleFn sampleFn_wf _ (fun _ => by decide +kernel)
 
-/-- non-vacuity: a struct with two member definitions (one with attribute and two declarators) and a method -/
+/-- non-vacuity: a struct with two base types (one with a template argument), two member definitions (one with attribute
+and two declarators) and a method -/
 def sampleStruct : StructDef :=
-  ⟨"P", [.var [] ⟨[], "float4", .nil, [⟨.name "pos", none⟩]⟩,
+  ⟨"P", [([], "Base", .nil), ([], "Mixin", .cons (.e (.lit ⟨.IntUntyped, false, 4⟩)) .nil)],
+        [.var [] ⟨[], "float4", .nil, [⟨.name "pos", none⟩]⟩,
          .var [⟨"a", .nil, true⟩] ⟨[.RowMajor], "float4x4", .nil, [⟨.name "m", none⟩, ⟨.arr (.name "k") (.lit ⟨.IntUntyped, false, 2⟩), none⟩]⟩,
          .method sampleFn]⟩
 
 theorem sampleStruct_wf : WFStruct ["vector", "float4", "S", "uint", "float", "float4x4"] sampleStruct := by
+  refine ⟨fun b hb => ?_, ?_⟩
+  · simp only [sampleStruct, List.mem_cons, List.not_mem_nil, or_false] at hb
+    rcases hb with rfl | rfl <;> simp [WFBase, WFTArgs, WFArg, RsslVerif.Lemmas.RoundtripFull.WF] <;> decide
   intro m hm
   simp only [sampleStruct, List.mem_cons, List.not_mem_nil, or_false] at hm
   rcases hm with rfl | rfl | rfl
   · simp [WFMember, WFAttrs, WFVarDef, WFInitDecl, WFDecl, WFTArgs, Decl.abstr]; decide +kernel
-  · simp [WFMember, WFAttrs, WFAttr, argsLvl, RsslVerif.Lemmas.RoundtripFull.WFA, WFVarDef, WFInitDecl, WFDecl, WFTArgs,
+  · simp [WFMember, WFAttrs, WFAttr, RsslVerif.Lemmas.RoundtripFull.WFA, WFVarDef, WFInitDecl, WFDecl, WFTArgs,
       Decl.abstr, Decl.needsScope, RsslVerif.Lemmas.RoundtripFull.WF]
     decide +kernel
   · exact sampleFn_wf
